@@ -12,7 +12,7 @@
    operators ([table_ok]; any number of levels, any prefix operators, the empty table included), every
    identifier chain, every expression, every fuel - no bound on depth or length. *)
 From P2 Require Import Base.Prelude Lex.Token Syn.Ast Syn.Parse Syn.Render Syn.ParseRel Syn.ParseProofs
-  Syn.ParseSound Syn.ParseTotal Syn.ParseCor.
+  Syn.ParseSound Syn.ParseTotal Syn.ParseCor Syn.Full Syn.FullProofs.
 
 (* completeness: every well-formed rendering is parsed, as a whole, to exactly the tree it denotes
    ([parse] = Parser.Parse on the token list, with the linear fuel of C03_parse_total) *)
@@ -60,6 +60,17 @@ Theorem C03_reject_unbalanced : forall cfg ids, table_ok cfg = true ->
   forall f ts, frag_toks ts = true -> balanced ts = false ->
   forall e, parse_fuel cfg f ids ts <> POk e.
 Proof. exact (fun cfg ids H => reject_unbalanced cfg ids H). Qed.
+
+(* FULL GRAMMAR (Syn/Full.v): rendering trees [ft] with let / func / if-then-else / switch-case-default / try-catch /
+   closures  x -> e ,  (a, b) -> e  / list and map literals; [fwf] adds the grammar facts (let / func only where parseLet
+   is called; forms ending in an open parseLet tail absorb what follows); [ferase ids r] is the annotated AST the tree
+   denotes for the identifier chain ids - identifiers resolved through the scope stack, constant lets propagated,
+   closures with OuterIdents / Recursive / ThisName computed from the names their bodies look up - together with
+   the names looked up.  Completeness: Parser.Parse on the tokens of any well-formed tree yields exactly that AST,
+   for every operator table and every identifier chain. *)
+Theorem C03_parse_complete_full : forall cfg, table_ok cfg = true ->
+  forall ids r e u, fwf cfg r = true -> ferase cfg ids r = Some (e, u) -> parse cfg ids (fflatten cfg r) = POk e.
+Proof. exact parse_complete_full. Qed.
 
 (* parser half of C04, for EVERY configuration (no side condition on the table: the empty table and a prefix
    operator that is also the highest binary level included) and every token list of the full grammar:
@@ -125,6 +136,29 @@ Example C03_nonvacuous_disguised :
   parse ex_cfg ex_ids [k_ident [97%N]; k_op [60%N]; k_str [60%N]] = POk (AOp [60%N] 1 (AIdent [97%N] false) (AConst [60%N])).
 Proof. vm_compute. repeat split. Qed.
 
+(* full grammar, non-vacuity:  func f(n) if n < b then c else f(n - b) ; let k = 2 ; x -> f(x) - k - a
+   (table  -  <  <=  << ; a b c variables): the func is recursive and captures b and c, the constant let is
+   propagated, the closure captures f and a but not the constant k *)
+Definition ex_n := FIdent [110%N]. Definition ex_fb := FIdent [98%N]. Definition ex_x := FIdent [120%N].
+Definition ex_prog : ft :=
+  FFunc [102%N] [[110%N]]
+    (FIf (FBin 1 ex_n ex_fb) (FIdent [99%N]) (FCall (FIdent [102%N]) (FA_last (FBin 0 ex_n ex_fb))))
+    (FLet [107%N] (FNum [50%N])
+       (FClo1 [120%N] (FBin 0 (FBin 0 (FCall (FIdent [102%N]) (FA_last ex_x)) (FIdent [107%N])) (FIdent [97%N])))).
+Example C03_nonvacuous_full :
+  fwf ex_cfg ex_prog = true /\
+  parse ex_cfg ex_ids (fflatten ex_cfg ex_prog)
+  = POk (ALet [102%N]
+           (AClosure [[110%N]]
+              (AIf (AOp [60%N] 1 (AIdent [110%N] false) (AIdent [98%N] false)) (AIdent [99%N] false)
+                   (ACall (AIdent [102%N] false) [AOp [45%N] 0 (AIdent [110%N] false) (AIdent [98%N] false)]))
+              [[98%N]; [99%N]] true [102%N])
+           (AClosure [[120%N]]
+              (AOp [45%N] 0 (AOp [45%N] 0 (ACall (AIdent [102%N] false) [AIdent [120%N] false]) (AConst [50%N]))
+                            (AIdent [97%N] false))
+              [[102%N]; [97%N]] false [])).
+Proof. vm_compute. split; reflexivity. Qed.
+
 Print Assumptions C03_parse_complete.
 Print Assumptions C03_parse_sound.
 Print Assumptions C03_renders_unique.
@@ -133,6 +167,7 @@ Print Assumptions C03_pp_min_roundtrip.
 Print Assumptions C03_pp_full_roundtrip.
 Print Assumptions C03_reject_nonrendering.
 Print Assumptions C03_reject_unbalanced.
+Print Assumptions C03_parse_complete_full.
 Print Assumptions C03_parse_no_panic.
 Print Assumptions C03_parse_total.
 Print Assumptions C03_parse_fuel_stable.
